@@ -12,6 +12,7 @@ import (
 	"runtime/metrics"
 	"strings"
 	"testing"
+	"time"
 
 	"github.com/peterstace/simplefeatures/geom"
 	"pgregory.net/rapid"
@@ -854,11 +855,12 @@ func c08Gen(t *rapid.T, cx *h.Ctx) C08Case {
 
 func TestC08(t *testing.T) {
 	p := h.Prop[C08Case]{
-		ID:          "C08",
-		Rule:        "fault enumeration + search. Enumerated (complete in the thorough tier, every 7th case in quick): every truncation, byte substitution (all 256 values at header/count/type bytes, boundary values elsewhere), count/varint overwrite, WKT token edit and hostile numeral, GeoJSON structural edit over a corpus of valid encodings of 17 shapes x 4 coordinate types in WKB (3 byte-order patterns), TWKB (4 header sets), WKT, GeoJSON(+Feature, FeatureCollection). Random (rapid): arbitrary bytes up to 64 KiB, plausible header + random tail, multi-edits of corpus entries, generated structures with one count overwritten, deep nesting/repetition. Each input goes through every decoder entry point of its format (validating and NoValidate, Scan/UnmarshalJSON adapters, TWKB header readers): no panic, no process death (the shard runs under ulimit -v and journals the in-flight input), heap allocation <= 1 MiB + 2048 x len(input) per call, validating decoders return only geometries that pass Validate, every returned geometry re-encodes in WKT/WKB/GeoJSON/TWKB without panic. non-trivial = the input passes the decoder's first structural check (byte order + type code / type nibble / leading keyword / JSON object with a type member)",
-		Assumptions: []string{"allocation is measured with runtime/metrics /gc/heap/allocs:bytes (single-threaded shard) and every over-budget candidate is re-measured with runtime.ReadMemStats on an identical second call; the cheap counter may under-report up to ~2 MB of small allocations", "process death is detected by the driver from the shard's exit status and the in-flight journal", "slow inputs are not violations (C08 has no time clause)"},
-		Gen:         c08Gen,
-		Check:       c08Check,
+		ID:              "C08",
+		WholeCheckLimit: 300 * time.Second,
+		Rule:            "fault enumeration + search. Enumerated (complete in the thorough tier, every 7th case in quick): every truncation, byte substitution (all 256 values at header/count/type bytes, boundary values elsewhere), count/varint overwrite, WKT token edit and hostile numeral, GeoJSON structural edit over a corpus of valid encodings of 17 shapes x 4 coordinate types in WKB (3 byte-order patterns), TWKB (4 header sets), WKT, GeoJSON(+Feature, FeatureCollection). Random (rapid): arbitrary bytes up to 64 KiB, plausible header + random tail, multi-edits of corpus entries, generated structures with one count overwritten, deep nesting/repetition. Each input goes through every decoder entry point of its format (validating and NoValidate, Scan/UnmarshalJSON adapters, TWKB header readers): no panic, no process death (the shard runs under ulimit -v and journals the in-flight input), heap allocation <= 1 MiB + 2048 x len(input) per call, validating decoders return only geometries that pass Validate, every returned geometry re-encodes in WKT/WKB/GeoJSON/TWKB without panic. non-trivial = the input passes the decoder's first structural check (byte order + type code / type nibble / leading keyword / JSON object with a type member)",
+		Assumptions:     []string{"allocation is measured with runtime/metrics /gc/heap/allocs:bytes (single-threaded shard) and every over-budget candidate is re-measured with runtime.ReadMemStats on an identical second call; the cheap counter may under-report up to ~2 MB of small allocations", "process death is detected by the driver from the shard's exit status and the in-flight journal", "slow inputs are not violations (C08 has no time clause)"},
+		Gen:             c08Gen,
+		Check:           c08Check,
 		Enumerate: func(cx *h.Ctx, yield func(C08Case)) []string {
 			if cx.Thorough {
 				return c08Enumerate(cx, yield)
